@@ -32,6 +32,9 @@ func init() {
 
 // ---- the child ---------------------------------------------------------------
 
+// ttyProg is the child's program (for the renderer's bookkeeping).
+var ttyProg *tea.Program
+
 type ttyModel struct {
 	log       *os.File
 	gate      string // path: Update of key 'b' blocks until this file exists
@@ -58,6 +61,13 @@ func (m ttyModel) Update(msg tea.Msg) (tea.Model, tea.Cmd) {
 	switch v := msg.(type) {
 	case tea.WindowSizeMsg:
 		m.logf("size %d %d", v.Width, v.Height)
+		// the renderer has handled the message before Update sees it: the size it clips to
+		if ttyProg != nil {
+			if rd := tea.VerifProgramRenderer(ttyProg); rd != nil {
+				st := rd.State()
+				m.logf("rsize %d %d", st.Width, st.Height)
+			}
+		}
 	case tea.KeyMsg:
 		switch v.String() {
 		case "q":
@@ -140,6 +150,7 @@ func childTTY(args []string) int {
 		}
 	}
 	p := tea.NewProgram(m, opts...)
+	ttyProg = p
 	m.logf("starting")
 	_, err = p.Run()
 	m.logf("run-returned %s", errClass(err))
@@ -585,12 +596,24 @@ func ptyResize(out *scenOut, rr *rng) {
 	// (a resize in the first instants, before the listener goroutine has
 	// registered for SIGWINCH, is lost: start-up window, recorded as a limit)
 	time.Sleep(40 * time.Millisecond)
-	steps := rr.rangeIn(2, 6)
+	steps := rr.rangeIn(4, 8)
 	for i := 0; i < steps; i++ {
-		if rr.chance(1, 3) {
+		if rr.chance(1, 4) {
 			r.pair.master.Write([]byte("w")) // the WindowSize command
 		} else {
 			nw, nh := rr.rangeIn(10, 160), rr.rangeIn(3, 60)
+			switch i {
+			case 0:
+				nw = w // a resize that changes the rows only
+				if nh == h {
+					nh++
+				}
+			case 1:
+				nh = h // ... the columns only
+				if nw == w {
+					nw++
+				}
+			}
 			if nw == w && nh == h {
 				nw++
 			}
@@ -649,6 +672,19 @@ func ptyResize(out *scenOut, rr *rng) {
 	if strings.Join(got, ", ") != strings.Join(want, ", ") {
 		out.fail(finding{Property: "C18", Class: "new", What: "Update did not receive exactly the true window sizes (start-up, every resize, every WindowSize command)", Input: desc,
 			Expected: strings.Join(want, ", "), Observed: strings.Join(got, ", ")})
+	}
+	// the renderer has adopted every size it was told, by the time Update sees the message
+	{
+		var last string
+		for _, l := range r.logLines() {
+			if strings.HasPrefix(l, "size ") {
+				last = l[5:]
+			} else if strings.HasPrefix(l, "rsize ") && l[6:] != last {
+				out.fail(finding{Property: "C18", Class: "new", What: "the renderer does not clip to the most recently reported size", Input: desc,
+					Expected: "renderer size " + last, Observed: "renderer size " + l[6:]})
+				break
+			}
+		}
 	}
 	// the renderer clips to the most recently reported size: the 300-cell line
 	// occupies one row cut at the width
